@@ -373,3 +373,4 @@ def run(chk, tier):
     chk.guard('C08.c', lambda: rule_call_args(chk, prog, tier))
     chk.guard('C08.d', lambda: rule_adjust(chk, prog, tier))
     chk.guard('C08.e', lambda: rule_valist(chk, prog, tier))
+    chk.guard('C05.a', lambda: c05.rule_promote(chk, prog, tier))      # default argument promotions are the integer promotions (incl. bit-fields)
